@@ -48,6 +48,8 @@ def cases(draw, tier):
         'map': None,
     }
     case['map_order'] = draw(st.sampled_from([0, 0, 1, 2]))
+    case['map_below'] = draw(st.lists(st.sampled_from([1, 2, 3, 5, 7, 8, 9, 100, 16384]), max_size=3, unique=True))
+    case['map_above'] = draw(st.lists(st.sampled_from([0, 1, 2, 7, 8, 300]), max_size=3, unique=True))
     mk = draw(st.sampled_from(['none', 'none', 'trace', 'trace', 'trace', 'set']))
     if mk != 'none':
         fmt = draw(st.sampled_from(['z80', 'specemu', 'rzxplay', 'fuse', 'spud']))
@@ -152,7 +154,11 @@ def oracle(case, rec=None):
             if not mapped:
                 mp = None
             else:
-                argv += ['-m', write_map(s, mp['fmt'], mapped, case.get('map_order', 0))]
+                # an emulator's map covers the whole address space: addresses executed outside [start, end) - in
+                # particular just below START and at/after END - are in the file too and must be ignored
+                outside = [a for a in (start - d for d in case.get('map_below', ())) if 0 <= a < start]
+                outside += [a for a in (end + d for d in case.get('map_above', ())) if end <= a < 65536]
+                argv += ['-m', write_map(s, mp['fmt'], sorted(set(mapped) | set(outside)), case.get('map_order', 0))]
         argv.append(binf)
         res = run_with_alarm(lambda: _run_sna2ctl(argv), 120.0)
         if res[0] == 'hang':
